@@ -65,6 +65,94 @@ fn rand_exts(rng: &mut Rng, total: u64, valid: bool) -> Vec<(u64, usize)> {
     v
 }
 
+// The harness's own CRC-32C (bitwise, Castagnoli reflected), used only to FIND inputs whose 16-bit
+// fold is zero -- the one input class in 65536 where the "never 0" mapping of the token matters.
+// The expected answers still come from the Coq model, the actual ones from /repo.
+fn own_crc_update(mut crc: u32, c: &[u8]) -> u32 {
+    for &b in c {
+        crc ^= b as u32;
+        for _ in 0..8 {
+            crc = if crc & 1 != 0 { (crc >> 1) ^ 0x82F6_3B78 } else { crc >> 1 };
+        }
+    }
+    crc
+}
+fn own_crc32c(chunks: &[&[u8]]) -> u32 {
+    let mut crc = !0u32;
+    for c in chunks {
+        crc = own_crc_update(crc, c);
+    }
+    !crc
+}
+fn fold_is_zero(crc: u32) -> bool {
+    ((crc >> 16) ^ crc) as u16 == 0
+}
+
+/// directed cases: headers, markers and whole records whose CRC folds to zero
+fn fold_zero_cases(rng: &mut Rng, out: &mut Out, want: usize) {
+    let mut found = 0;
+    let mut tries = 0u64;
+    while found < want && tries < 3_000_000 {
+        tries += 1;
+        let s = rand_sector(rng);
+        match found % 3 {
+            0 => {
+                // seq_token over a short header
+                let n = rng.range(4, 40) as usize;
+                let d = rand_bytes(rng, n);
+                if fold_is_zero(own_crc32c(&[&s.to_le_bytes(), &d])) {
+                    out.emit(&format!("codec stok {s} {}", hex(&d)), &pure::seq_token(s, &d).to_string());
+                    found += 1;
+                }
+            }
+            1 => {
+                // retirement marker token: bytes 0..16 and the state byte
+                let mut d = rand_bytes(rng, 19);
+                d[..8].copy_from_slice(b"\0DELETED");
+                d[18] = *rng.pick(&[1u8, 2]);
+                if fold_is_zero(own_crc32c(&[&s.to_le_bytes(), &d[..16], &d[18..19]])) {
+                    out.emit(&format!("codec stok {s} {}", hex(&[&d[..16], &d[18..19]].concat())), &pure::retirement_marker_token(s, &d).to_string());
+                    found += 1;
+                }
+            }
+            _ => {
+                // a v3 record image as the write path builds it (token bytes zero), then stamped
+                let kl = rng.range(1, 24) as usize;
+                let key = rand_bytes(rng, kl);
+                let vl = rng.range(3000, 4000) as usize;
+                let value = rand_bytes(rng, vl);
+                let ts = rng.next() >> 8;
+                let rec = Record::new_with_timestamp_ttl(key.clone(), value.clone(), ts, 0);
+                let f = get_format(3);
+                let mut data = Vec::new();
+                data.extend_from_slice(&0xABCDu16.to_le_bytes());
+                data.extend_from_slice(&[0, 0]);
+                f.serialize_record_into(&rec, false, &mut data);
+                data.extend_from_slice(&value);
+                let used = data.len();
+                data.resize(4096, 0);
+                // vary the last value bytes until the fold is zero (bounded)
+                let mut hit = false;
+                let prefix = own_crc_update(own_crc_update(!0u32, &s.to_le_bytes()), &data[..used - 3]);
+                for c in 0..400_000u32 {
+                    data[used - 3..used].copy_from_slice(&c.to_le_bytes()[..3]);
+                    if fold_is_zero(!own_crc_update(prefix, &data[used - 3..])) {
+                        hit = true;
+                        break;
+                    }
+                }
+                if hit {
+                    out.emit(&format!("codec rtok {s} {}", hex(&data)), &pure::record_seq_token(s, &data).to_string());
+                    let mut stamped = data.clone();
+                    pure::stamp_seq_token(&mut stamped, s, f.as_ref());
+                    out.emit(&format!("codec stamp 3 {s} {}", hex(&data)), &format!("{:016x}", fnv1a(&stamped)));
+                    found += 1;
+                }
+            }
+        }
+    }
+}
+
 fn one(rng: &mut Rng, out: &mut Out) {
     match rng.below(14) {
         0 => {
@@ -291,6 +379,7 @@ pub fn run(opts: &Opts) -> i32 {
         handles.push(std::thread::spawn(move || {
             let mut out = Out::new(&dir, &format!("s{sh}"));
             let mut rng = Rng::new(seed.wrapping_mul(31337).wrapping_add(sh));
+            fold_zero_cases(&mut rng, &mut out, if sh < 6 { 3 } else { 0 });
             for _ in 0..per {
                 one(&mut rng, &mut out);
             }
